@@ -4,6 +4,7 @@ CONSTANTS
   MaxKK = 0
   MaxRd = 0
   NQ = 12
+  MaxPolls = 1
   MaxLatch = 0
   FileSteps = FALSE
   QKinds = {}
